@@ -282,19 +282,36 @@ theorem yin_stmt_roundtrip_fails_F86 :
   rw [e] at this
   simp [firstKidArg, YStmt.arg] at this
 
-/-- **F340 (new).**  A `value` statement directly under `error-message` (`g:e1 "x" { error-message "m" { value "1"; } }` — extension
+/-- **F340.**  A `value` statement directly under `error-message` (`g:e1 "x" { error-message "m" { value "1"; } }` — extension
     substatements are free-form) is printed as `<value value="1"/>` behind the argument element `<value>m</value>`;
     `yin_match_keyword` turns every `value` under `error-message` into the argument element (`LY_STMT_ARG_VALUE`), for which
-    `yin_parse_extension_instance_arg` has no case: `LOGINT`, the parse fails with `LY_EINT`. -/
-theorem yin_stmt_roundtrip_fails_errmsg_value :
+    `yin_parse_extension_instance_arg` has no case: `LOGINT`, the parse fails with `LY_EINT`.  Stated for the source as it is without
+    the repair `fixes/F340.diff` (`Generated.yinArgRemap`, read off `yin_parse_element_generic`, is `false`). -/
+theorem yin_stmt_roundtrip_fails_errmsg_value (hsrc : yinArgRemap = false) :
     ¬ ∀ (k : Bytes), stmtInfo k = some (some sValue, false) →
       ∃ r, roundtripExt (.mk sE1 (some [97]) false (some [120]) [] [.mk sErrMsg (.kw sErrMsg) (some [109]) 0 [.mk k (.kw k) (some [49]) 0 []]]) = .ok r := by
   intro h
   obtain ⟨r, e⟩ := h sValue (by decide)
-  have : isErr (roundtripExt (.mk sE1 (some [97]) false (some [120]) [] [.mk sErrMsg (.kw sErrMsg) (some [109]) 0 [.mk sValue (.kw sValue) (some [49]) 0 []]])) .eint = true := by
+  have : yinArgRemap = false → isErr (roundtripExt (.mk sE1 (some [97]) false (some [120]) [] [.mk sErrMsg (.kw sErrMsg) (some [109]) 0 [.mk sValue (.kw sValue) (some [49]) 0 []]])) .eint = true := by
     decide +kernel
+  have := this hsrc
   rw [e] at this
   simp [isErr] at this
+
+/-- the number of children the first substatement came back with -/
+def firstKidKids (r : Except YErr (Bytes × Option Bytes × List YStmt)) : Option Nat :=
+  match r with
+  | .ok (_, _, s :: _) => some s.children.length
+  | _ => none
+
+/-- **F340 repaired** (`fixes/F340.diff`: `yin_parse_element_generic` reads an element matched as `LY_STMT_ARG_VALUE` as the `value`
+    statement it is — the argument element was consumed with its parent): the witness comes back, `error-message "m"` with its one
+    child.  Vacuous on the unrepaired source; re-checked against the source on every run through `Generated.yinArgRemap`. -/
+theorem yin_stmt_roundtrip_errmsg_value_fixed (hsrc : yinArgRemap = true) :
+    firstKidArg (roundtripExt (.mk sE1 (some [97]) false (some [120]) [] [.mk sErrMsg (.kw sErrMsg) (some [109]) 0 [.mk sValue (.kw sValue) (some [49]) 0 []]])) = some (some [109]) ∧
+    firstKidKids (roundtripExt (.mk sE1 (some [97]) false (some [120]) [] [.mk sErrMsg (.kw sErrMsg) (some [109]) 0 [.mk sValue (.kw sValue) (some [49]) 0 []]])) = some 1 := by
+  revert hsrc
+  decide +kernel
 
 /-- under any other parent the same `value` statement comes back (non-vacuity of the exclusion) -/
 example : firstKidArg (roundtripExt (.mk sE1 (some [97]) false (some [120]) [] [.mk [98, 105, 116] (.kw [98, 105, 116]) (some [109]) 0 [.mk sValue (.kw sValue) (some [49]) 0 []]])) =
